@@ -456,6 +456,14 @@ class _NullGuard(Client):
         lf = self.lf
         if kind == "load" and isinstance(node, ast.Attribute):
             d = dotted(node)
+            if d and len(d) == 2 and not ctx.scope.is_self(ast.Name(id=d[0], ctx=ast.Load())):
+                # a local that names an end (`last = self.tail; ...; last.data`)
+                from ..flow import Flow
+                from ..util import path_of
+                fl = getattr(ctx.func.node, "_flow", None)
+                if fl is None:
+                    fl = ctx.func.node._flow = Flow(ctx.func.node)
+                d = path_of(node, fl, keep=(ctx.func.self_name,)) or d
             if d and len(d) == 3 and d[1] in lf.ends and ctx.scope.is_self(ast.Name(id=d[0], ctx=ast.Load())):
                 self.derefs += 1
                 if d[1] not in state:
